@@ -68,7 +68,9 @@ class C03(spec.Spec):
                 qns = [("ex", "A", "x"), ("ex", "B", "x"), ("ex", "C", "x"), ("", "A", "x"), ("", "B", "x"),
                        ("", "C", "x"), ("", "AB", "x"), ("q", "B", "x"),
                        # a local part that makes the printed name look like scheme://...
-                       ("ex", "A", "//x")]
+                       ("ex", "A", "//x"),
+                       # unprefixed names whose local part contains a colon (printed bare they would read as prefixed)
+                       ("", "A", "ex:x"), ("", "B", "zz:x")]
                 strs = ["ex:x", "q:x", "ex_1:x", "ex_2:x", "dn:x", "dn_2:x", "x"]
             elif full == "core":
                 decl = [("ex", "A"), ("ex", "B"), ("q", "A"), ("ex_1", "C"), ("dn", "C")]
